@@ -35,6 +35,7 @@ type c09Params struct {
 	Raw  []byte `json:"raw,omitempty"`
 	// flood: after completion
 	Flood string `json:"flood,omitempty"`
+	Mid   bool   `json:"mid,omitempty"` // flood after Step honest messages instead of after completion
 	N     int    `json:"n,omitempty"`
 	// certs: certificate list with foreign key types
 	Certs []string `json:"certs,omitempty"`
@@ -43,7 +44,7 @@ type c09Params struct {
 func (c09) ID() string    { return "C09" }
 func (c09) Level() string { return "exploration" }
 func (c09) Rule() string {
-	return "each case: stack x role of the real endpoint x suite x client-auth, and one hostile behaviour of an otherwise honest scripted peer drawn from the seed: (mutate) one handshake message truncated at a drawn length / extended / with a byte flipped / with a length-looking field overwritten / replaced by 0-8 arbitrary bytes; (raw) arbitrary or structured garbage records after k honest messages; (certs) certificate lists with RSA, P-256 and Ed25519 keys in either position; (flood) after completion: handshake records, empty records, warning alerts, huge-fragment announcements and many message sequence numbers (DTLCP). Oracle: no task panics, the endpoint yields within the watchdog and finishes or blocks waiting for input within the step budget, and the hook-reported buffered bytes stay within (65536+4 + one record) + (two records of read-ahead) on the stream stack and 256 reassembly buffers of <= 64 KiB on the datagram stack. distinct = distinct (parameters); non-trivial = the hostile bytes were delivered to a live endpoint"
+	return "each case: stack x role of the real endpoint x suite x client-auth, and one hostile behaviour of an otherwise honest scripted peer drawn from the seed: (mutate) one handshake message truncated at a drawn length / extended / with a byte flipped / with a length-looking field overwritten / replaced by 0-8 arbitrary bytes; (raw) arbitrary or structured garbage records after k honest messages; (certs) certificate lists with RSA, P-256 and Ed25519 keys in either position; (flood) after completion or after k honest messages: handshake records, empty records, warning alerts, huge-fragment announcements and many message sequence numbers (DTLCP). Oracle: no task panics, the endpoint yields within the watchdog and finishes or blocks waiting for input within the step budget, and the hook-reported buffered bytes stay within (65536+4 + one record) + (two records of read-ahead) on the stream stack and 256 reassembly buffers of <= 64 KiB on the datagram stack. distinct = distinct (parameters); non-trivial = the hostile bytes were delivered to a live endpoint"
 }
 func (c09) Components() (real, stub []string) {
 	return []string{"tlcp/dtlcp client and server (instrumented): record layer, message parsers, key agreement, reassembly"},
@@ -109,6 +110,13 @@ func drawC09(src *vs.Src) *c09Params {
 		p.Mode = "flood"
 		p.Flood = pickStr(src, []string{"handshake", "empty-app", "warning", "hello-request", "big-fragments", "many-seqs", "tiny-fragments"})
 		p.N = 20 + src.Intn(300)
+		if src.Bool(1, 2) {
+			// the flood arrives in the middle of the handshake, after Step honest messages (that is when a
+			// datagram endpoint collects fragments); long enough to pass any fixed number of buffers
+			p.Mid = true
+			p.Step = src.Intn(6)
+			p.N = 20 + src.Intn(700)
+		}
 	}
 	return p
 }
@@ -294,7 +302,7 @@ func (c09) Run(c *Case, src *vs.Src) *Result {
 			}
 			ops = append(ops, "CCS", "FIN", "rFLIGHT")
 		}
-		if p.Mode == "raw" {
+		if p.Mode == "raw" || (p.Mode == "flood" && p.Mid) {
 			// cut the honest script after Step sends and throw the garbage in
 			var cut []string
 			sends := 0
